@@ -26,8 +26,8 @@ vars == <<l, s, cfg, wl, cmds, dead, acct>>
 \* TLCGet/TLCSet registers
 RViol == 1  RLines == 2  RTraces == 3
 RTicks == 10  RResults == 11  RFail == 12  RSusp == 13  RPoolKill == 14  RPoolKillMulti == 15  RPoolKillPartial == 16
-RBand == 17  RRaise == 18  ROwnKill == 19  RSuspDone == 20  RSusp1 == 21  RRounds == 22  RMultiOp == 23  RReject == 24
-Regs == {RViol, RLines, RTraces} \cup 10..24
+RBand == 17  RRaise == 18  ROwnKill == 19  RSuspDone == 20  RSusp1 == 21  RRounds == 22  RMultiOp == 23  RReject == 24  RWentOn == 25  RExtKill == 26
+Regs == {RViol, RLines, RTraces} \cup 10..26
 Bump(r, n) == TLCSet(r, TLCGet(r) + n)
 
 None == [ost |-> <<>>, pools |-> <<>>, ctr |-> <<>>, results |-> <<>>, klog |-> <<>>, crash |-> ""]
@@ -114,7 +114,9 @@ ObsClauses(e) ==
   /\ Flag(e, "C09.ResultShape", \A j \in 1..Len(o.results) : LET r == o.results[j] IN
         IF r.err = "" THEN \A m \in 1..Len(r.ops) : ObsOst(e, r.ops[m]) = "completed"
         ELSE \E n \in 0..(Len(r.ops) - 1) : /\ \A m \in 1..n : ObsOst(e, r.ops[m]) = "completed"
-                                            /\ \A m \in (n + 1)..Len(r.ops) : ObsOst(e, r.ops[m]) = "failed", "obs")
+                                            \* (operators failed by a kill from outside - any error but OOM - were failed between
+                                            \*  two ticks and may have been handed out again before this tick reaps the container)
+                                            /\ (r.err = "OOM" => \A m \in (n + 1)..Len(r.ops) : ObsOst(e, r.ops[m]) = "failed"), "obs")
   /\ Flag(e, "C09.ResultNotLive", \A j \in 1..Len(o.results) : \A k \in 1..cfg.np :
         o.results[j].cid \notin Range(ObsCids(o.pools[k].active)) \cup Range(ObsCids(o.pools[k].suspending)) \cup Range(o.pools[k].suspended), "obs")
   /\ Flag(e, "C09.ResultOnce", \A i, j \in 1..Len(o.results) : i # j => o.results[i].cid # o.results[j].cid, "obs")
@@ -138,7 +140,8 @@ KCand(kl, c) == kl.cands[CHOOSE j \in 1..Len(kl.cands) : kl.cands[j].cid = c]
 KillClauses(e, pred) ==
   \A k \in 1..cfg.np :
     LET kl == pred.klog[k]
-        failed == {e.obs.results[j].cid : j \in {j \in 1..Len(e.obs.results) : e.obs.results[j].err # "" /\ e.obs.results[j].pool = k}}
+        \* (a failure naming another error than OOM is a kill from outside, not the work of the pool's killer)
+        failed == {e.obs.results[j].cid : j \in {j \in 1..Len(e.obs.results) : e.obs.results[j].err = "OOM" /\ e.obs.results[j].pool = k}}
         V == failed \ kl.own                     \* pool-level victims as observed
         candIds == {kl.cands[j].cid : j \in 1..Len(kl.cands)}
     IN /\ Bump(ROwnKill, Cardinality(kl.own)) /\ Bump(RPoolKill, IF V # {} THEN 1 ELSE 0)
@@ -314,14 +317,49 @@ Step(e) ==
                  /\ Flag(e, "C02.LegalMoves", \A x \in AllOpsOf(wl) : ObsOst(e, x) # Ost(base, x) => ObsOst(e, x) \in ReachN(Ost(base, x)), "round")
                  /\ s' = [pred EXCEPT !.ost = e.obs.ost] /\ dead' = FALSE
          /\ cmds' = [sus |-> e.sus, asg |-> e.asg] /\ UNCHANGED <<cfg, wl, acct>>
+    [] e.ev = "kill" ->      \* Container.kill(err) from outside, between two ticks: the unfinished operators fail at once
+         LET pred == ExternalKill(cfg, wl, s, e.cid, e.err) IN
+         /\ Bump(RExtKill, 1)
+         /\ IF cfg.mode # "step" THEN s' = [s EXCEPT !.ost = e.obs.ost] /\ dead' = FALSE
+            ELSE IF pred.crash # "" THEN PrintT(<<"PRECOND", e.tid, "the harness killed a container that is not live", e.cid>>) /\ s' = s /\ dead' = TRUE
+            ELSE /\ Flag(e, "conf.C02.ost.kill", pred.ost = e.obs.ost, <<"pred", pred.ost, "obs", e.obs.ost>>)
+                 /\ Flag(e, "C02.LegalMoves", \A x \in AllOpsOf(wl) : ObsOst(e, x) # Ost(s, x) => ObsOst(e, x) \in ReachN(Ost(s, x)), "kill")
+                 /\ s' = [pred EXCEPT !.ost = e.obs.ost] /\ dead' = FALSE
+         /\ UNCHANGED <<cfg, wl, cmds, acct>>
     [] e.ev = "exec" ->
          /\ (IF cfg.mode = "step" THEN StepExec(e) ELSE ObsExec(e))
          /\ UNCHANGED <<cfg, wl, cmds>>
     [] e.ev = "raise" /\ e.where = "exec" ->
-         LET pred == ExecTick(cfg, wl, s, cmds.sus, cmds.asg) IN
+         LET ea == [tid |-> e.tid, t |-> e.t, obs |-> IF "after" \in DOMAIN e THEN e.after ELSE <<>>]
+             \* (a suspension length exactly on a tick boundary admits both outcomes: the observed one is taken, as in StepExec)
+             pred == IF "after" \in DOMAIN e THEN ExecTickH(cfg, wl, s, cmds.sus, cmds.asg, Hints(ea, FALSE, FALSE)) ELSE ExecTick(cfg, wl, s, cmds.sus, cmds.asg)
+             \* the caller caught the refusal and goes on (the harness does this only when no pool ran before the refusal, so that no
+             \* result was lost with the exception): the refused call is not a tick; what it leaves behind is the model's state at the
+             \* point of refusal - the valid suspensions of the batch applied, nothing else
+             goesOn == cfg.mode = "step" /\ "after" \in DOMAIN e /\ pred.crash \in {"over_cpu", "over_ram", "no_such_pool", "suspend_unknown", "suspend_not_boundary", "nops"}
+             left == [pred EXCEPT !.crash = "", !.results = <<>>]
+         IN
          /\ Bump(RRaise, 1) /\ Bump(RReject, 1)
          /\ (cfg.mode = "step" => Flag(e, "conf.raise.exec", pred.crash # "", <<"code raised", e.exc, e.msg, "spec accepts", cmds>>))
-         /\ dead' = TRUE /\ UNCHANGED <<s, cfg, wl, cmds, acct>>
+         /\ IF goesOn
+            THEN /\ Bump(RWentOn, 1)
+                 \* rejected as a whole: no container of a batch refused for overselling exists afterwards
+                 /\ Flag(e, "C03.RejectWhole.after", pred.crash \in {"over_cpu", "over_ram"} => ObsMaxCid(ea.obs) <= Len(s.ctr), <<"containers before", Len(s.ctr), "largest id after", ObsMaxCid(ea.obs)>>)
+                 /\ ConfClauses(ea, left)
+                 /\ IF ConfOK(ea, left) THEN s' = left /\ dead' = FALSE
+                    ELSE IF Resyncable(ea, left) THEN s' = Resync(ea, left) /\ dead' = FALSE
+                    ELSE s' = s /\ dead' = TRUE
+            ELSE s' = s /\ dead' = TRUE
+         /\ UNCHANGED <<cfg, wl, cmds, acct>>
+    [] e.ev = "end" /\ "final_ost" \in DOMAIN e ->
+         \* the pipelines as the caller finds them after run_simulator has returned: nothing moved since the last tick, in particular a
+         \* completed operator is still completed (operators only, per pipeline known to the trace)
+         /\ Flag(e, "C02.CompletedFinal.afterRun",
+                 \A p \in 1..Len(s.ost) : p <= Len(e.final_ost) /\ \A i \in 1..Len(s.ost[p]) :
+                      /\ (s.ost[p][i] = "completed" => e.final_ost[p][i] = "completed")
+                      /\ (e.final_ost[p][i] # s.ost[p][i] => e.final_ost[p][i] \in ReachN(s.ost[p][i])),
+                 <<"last seen", s.ost, "after the run", e.final_ost>>)
+         /\ UNCHANGED <<s, cfg, wl, cmds, dead, acct>>
     [] OTHER -> UNCHANGED <<s, cfg, wl, cmds, dead, acct>>
 
 Next == /\ l <= Len(TraceLog)
@@ -333,6 +371,6 @@ Consumed == /\ PrintT(<<"COUNT", "ticks", TLCGet(RTicks), "results", TLCGet(RRes
                         "suspensions_finished", TLCGet(RSuspDone), "suspends_1tick", TLCGet(RSusp1), "own_kills", TLCGet(ROwnKill),
                         "poolkill_ticks", TLCGet(RPoolKill), "poolkill_multi", TLCGet(RPoolKillMulti), "poolkill_partial", TLCGet(RPoolKillPartial),
                         "band_resolved", TLCGet(RBand), "raises", TLCGet(RRaise), "rounds", TLCGet(RRounds), "multiop_assignments", TLCGet(RMultiOp),
-                        "rejections", TLCGet(RReject)>>)
+                        "rejections", TLCGet(RReject), "went_on_after_refusal", TLCGet(RWentOn), "kills_from_outside", TLCGet(RExtKill)>>)
             /\ PrintT(<<"SUMMARY", "viol", TLCGet(RViol), "lines", TLCGet(RLines), "traces", TLCGet(RTraces)>>)
 =============================================================================
